@@ -200,6 +200,15 @@ fn main()
 					Case { slice: false, size: 0, fam: None, bs: 476, align: 119, ops: vec![op(true, 0xFFFF_FC48, false, 952), op(true, 0xFFFF_FC47, false, 834), op(true, 0xFFFF_FC49, false, 834)] },
 				];
 				for c in cases.iter() { emit(c, &mut out); }
+				// large writes: more than 64 KiB of data, below / across / at the top of the address space (a write that starts far
+				// below 2^32 can still run past it), whole pages and one byte more
+				let big = [
+					Case { slice: false, size: 0, fam: Some(0xE48BFF56), bs: 256, align: 256, ops: vec![op(true, 0xFFFE_FF00, false, 0x1_0200), op(true, 0x2000_0000, false, 16)] },
+					Case { slice: false, size: 0, fam: None, bs: 256, align: 256, ops: vec![op(true, 0xFFFE_FF00, false, 0x1_0100), op(true, 0xFFFE_FF00, true, 0x1_0101)] },
+					Case { slice: false, size: 0, fam: Some(1), bs: 476, align: 4, ops: vec![op(true, 0x1000_0000, false, 0x1_0001)] },
+					Case { slice: true, size: 0x4_2000, fam: None, bs: 256, align: 256, ops: vec![op(true, 0xFFFD_0000, false, 0x2_0000), op(true, 0xFFFF_0000, false, 0x1_0001)] },
+				];
+				for c in big.iter() { emit(c, &mut out); }
 			}
 			// ---- deterministic grid: every configuration x one call x every length x every address x both calls;
 			//      destination: vector, and for slices every capacity class (cycled through the family ids)
